@@ -9,10 +9,11 @@
 (*              result (after the documented 4-decimal height rounding)    *)
 (*   height_rule, vcv_rule, natural_zone                                   *)
 (*   helmert    the conform7 stage against Helmert.tla (1 um)              *)
-(*   vcv_symmetric / vcv_psd                                               *)
+(*   vcv_symmetric / vcv_psd / vcv_value (rotation, J Q J^T with the       *)
+(*              published uncertainties, rotation back: all in the spec)   *)
 (*   round_trip_position (0.3 mm) / round_trip_height (0.2 mm)             *)
 (***************************************************************************)
-EXTENDS Mga, Helmert, GridRules, Json, IOUtils
+EXTENDS Mga, Helmert, GridRules, Trig, Json, IOUtils
 
 Data   == JsonDeserialize(IOEnv.TRACE_FILE)
 Traces == Data.traces
@@ -38,6 +39,18 @@ Symm(m) == LET e == Mul(Dec(1, 3), Tr3(m))
 UTM == [fe |-> FromInt(500000), fn |-> FromInt(10000000), k0 |-> Dec(99960000, 2), zw |-> 6, cm1 |-> -177, isg |-> FALSE]
 GdaSet(ev) == LET base == [from |-> "GDA94", to |-> "GDA2020", ep |-> 0, p |-> [k \in 1..NP |-> J(ev.p14[k])]]
               IN IF ev.neg THEN NegSet(base) ELSE base
+
+\* the covariance the property describes: the input (local east-north-up at the INPUT position) carried through the
+\* transformation, plus the contribution of the PUBLISHED one-sigma uncertainties of the GDA94 <-> GDA2020 parameters
+\* (GDA2020 Technical Manual v1.2, table 3.2: translations 0.7 / 0.6 / 0.7 mm, scale 0.00010 ppm, rotations 0.000011 /
+\* 0.000010 / 0.000011 arc-seconds), expressed in the local frame at the OUTPUT position
+PublishedSd == <<Dec(7, 1), Dec(6, 1), Dec(7, 1), Dec(1, 1), Dec(1100, 2), Dec(1000, 2), Dec(1100, 2)>>
+ExpectedVcv(ev) ==
+  Let(EnuFrame(J(ev.pos1[1]), J(ev.pos1[2])), LAMBDA r1 : Let(EnuFrame(J(ev.pos2[1]), J(ev.pos2[2])), LAMBDA r2 :
+  Let(MatMul3(MatMul3(r1, MatJ(ev.vin)), Transp3(r1)), LAMBDA vc :
+  Let(Propagate(GdaSet(ev), Vec(ev.xyz), vc, PublishedSd), LAMBDA vc2 : MatMul3(MatMul3(Transp3(r2), vc2), r2)))))
+VcvValueOK(ev) == Let(ExpectedVcv(ev), LAMBDA e : Let(MatJ(ev.vout), LAMBDA o :
+                      \A i \in 1..3 : \A j \in 1..3 : Within(o[i][j], e[i][j], Add(Mul(Dec(10, 3), Tr3(e)), Dec(100, 5)))))   \* 1e-9 trace + 1e-18
 
 TraceInit == /\ tid \in 1..Len(Traces) /\ l = 1 /\ dead = FALSE /\ prevhex = ""
              /\ dir = Traces[tid].dir /\ ht = Traces[tid].ht /\ vcv = Traces[tid].vcv /\ pc = 1 /\ done = <<>>
@@ -75,6 +88,7 @@ Pipeline == /\ ~dead /\ l <= Len(T.ev) /\ T.ev[l].k = "pipeline"
                          ELSE IF ev.vout # <<>> /\ ev.vcv33 /\ ~Symm(MatJ(ev.vout)) THEN "vcv_symmetric"
                          ELSE IF ev.vout # <<>> /\ ev.vcv33 /\ ~PSD(MatJ(ev.vout)) THEN "vcv_psd"
                          ELSE IF ev.vout # <<>> /\ ev.vrethex # ev.vstephex THEN "vcv_equals_composition"
+                         ELSE IF ev.vout # <<>> /\ ev.vcv33 /\ ~VcvValueOK(ev) THEN "vcv_value"
                          ELSE ""} :
                   /\ (IF f = "" THEN TRUE ELSE Report("pipeline." \o f))
                   /\ dead' = (f # "")
